@@ -7,21 +7,22 @@ import (
 )
 
 // C14: case forms (see coq/Extract/RunC14.v)
-//   (1 bytes offset expect mustOK)  parseDescriptors with the iterator at offset. expect and mustOK are read by the
-//                                   oracle only: expect is a list with one entry per descriptor of the loop, () = no
-//                                   expectation, (d) = the value whose reference encoding sits at that position;
-//                                   mustOK = 1 when the whole input is a reference encoding (parsing must succeed)
-//   (2 descriptors)                 writeDescriptorsWithLength
-//   (3 descriptors)                 calcDescriptorLength of each, calcDescriptorsLength
-//   (4 descriptors)                 writeDescriptors
-//   (5 descriptor)                  writeDescriptor
+//
+//	(1 bytes offset expect mustOK)  parseDescriptors with the iterator at offset. expect and mustOK are read by the
+//	                                oracle only: expect is a list with one entry per descriptor of the loop, () = no
+//	                                expectation, (d) = the value whose reference encoding sits at that position;
+//	                                mustOK = 1 when the whole input is a reference encoding (parsing must succeed)
+//	(2 descriptors)                 writeDescriptorsWithLength
+//	(3 descriptors)                 calcDescriptorLength of each, calcDescriptorsLength
+//	(4 descriptors)                 writeDescriptors
+//	(5 descriptor)                  writeDescriptor
 type c14 struct{}
 
 func init() { props["C14"] = c14{} }
 
 func (c14) Num() int { return 14 }
 
-func descsTok(ds []*astits.Descriptor) Tok {
+func c14DescsTok(ds []*astits.Descriptor) Tok {
 	items := make([]Tok, 0, len(ds))
 	for _, d := range ds {
 		items = append(items, ToTok(*d))
@@ -29,7 +30,7 @@ func descsTok(ds []*astits.Descriptor) Tok {
 	return L(items...)
 }
 
-func expectAll(ds []*astits.Descriptor) Tok {
+func c14ExpectAll(ds []*astits.Descriptor) Tok {
 	items := make([]Tok, 0, len(ds))
 	for _, d := range ds {
 		items = append(items, L(ToTok(*d)))
@@ -37,12 +38,12 @@ func expectAll(ds []*astits.Descriptor) Tok {
 	return L(items...)
 }
 
-func parseCase(in []byte, off int, expect Tok, mustOK bool) Tok {
+func c14ParseCase(in []byte, off int, expect Tok, mustOK bool) Tok {
 	return L(I(1), B(in), I(int64(off)), expect, Bool(mustOK))
 }
 
-// framed puts a loop between random bytes and returns the buffer and the loop's offset
-func framed(r *Rng, loop []byte) ([]byte, int) {
+// c14Framed puts a loop between random bytes and returns the buffer and the loop's offset
+func c14Framed(r *Rng, loop []byte) ([]byte, int) {
 	pre := 0
 	if r.Chance(1, 3) {
 		pre = r.Range(1, 9)
@@ -56,7 +57,7 @@ func framed(r *Rng, loop []byte) ([]byte, int) {
 	return b, pre
 }
 
-func withLen(body []byte) []byte {
+func c14WithLen(body []byte) []byte {
 	w := &bw{}
 	w.put(4, 0xf)
 	w.put(12, uint64(len(body)))
@@ -72,15 +73,15 @@ func (c14) Gen(r *Rng, tier string, emit func(string, Tok)) {
 	// 1. every tag on its own: reference encoding parsed; value written (struct Length correct / 0 / wrong); lengths
 	for _, sel := range c14Selectors {
 		for k := 0; k < 40*scale; k++ {
-			d := genDesc(r, sel)
+			d := c14GenDesc(r, sel)
 			name := c14Name(d.Tag)
 			ds := []*astits.Descriptor{d}
-			loop, _ := refLoop(ds, true)
-			in, off := framed(r, loop)
-			emit("tag-parse:"+name, parseCase(in, off, expectAll(ds), true))
-			emit("tag-write:"+name, L(I(2), descsTok(ds)))
+			loop, _ := c14RefLoop(ds, true)
+			in, off := c14Framed(r, loop)
+			emit("tag-parse:"+name, c14ParseCase(in, off, c14ExpectAll(ds), true))
+			emit("tag-write:"+name, L(I(2), c14DescsTok(ds)))
 			if k%2 == 0 {
-				emit("tag-calc", L(I(3), descsTok(ds)))
+				emit("tag-calc", L(I(3), c14DescsTok(ds)))
 			}
 			if k%4 == 1 {
 				emit("tag-write1", L(I(5), ToTok(*d)))
@@ -96,25 +97,25 @@ func (c14) Gen(r *Rng, tier string, emit func(string, Tok)) {
 		if k%50 == 1 {
 			maxN = 0
 		}
-		ds := genLoop(r, maxN, 4095)
-		loop, _ := refLoop(ds, true)
-		in, off := framed(r, loop)
-		emit("loop-parse", parseCase(in, off, expectAll(ds), true))
-		emit("loop-write", L(I(2), descsTok(ds)))
+		ds := c14GenLoop(r, maxN, 4095)
+		loop, _ := c14RefLoop(ds, true)
+		in, off := c14Framed(r, loop)
+		emit("loop-parse", c14ParseCase(in, off, c14ExpectAll(ds), true))
+		emit("loop-write", L(I(2), c14DescsTok(ds)))
 		if k%2 == 0 {
-			emit("loop-calc", L(I(3), descsTok(ds)))
+			emit("loop-calc", L(I(3), c14DescsTok(ds)))
 		}
 		if k%3 == 0 {
-			emit("loop-write-nolen", L(I(4), descsTok(ds)))
+			emit("loop-write-nolen", L(I(4), c14DescsTok(ds)))
 		}
 	}
 	// 3. a descriptor with an arbitrary declared length between two well-formed ones: the TLV tiling is intact, so
 	//    whatever the middle body is taken for, the neighbours must be decoded as themselves
 	for k := 0; k < 700*scale; k++ {
-		a := genDesc(r, c14Selectors[r.Intn(len(c14Selectors))])
-		b := genDesc(r, c14Selectors[r.Intn(len(c14Selectors))])
-		x := genDesc(r, c14Selectors[r.Intn(len(c14Selectors))])
-		xb := refBody(x)
+		a := c14GenDesc(r, c14Selectors[r.Intn(len(c14Selectors))])
+		b := c14GenDesc(r, c14Selectors[r.Intn(len(c14Selectors))])
+		x := c14GenDesc(r, c14Selectors[r.Intn(len(c14Selectors))])
+		xb := c14RefBody(x)
 		var body []byte
 		switch r.Intn(6) {
 		case 0: // shorter than the tag implies: a prefix of a valid body
@@ -126,10 +127,10 @@ func (c14) Gen(r *Rng, tier string, emit func(string, Tok)) {
 		case 2: // longer: valid body and extra bytes
 			body = append([]byte{}, xb...)
 			if extra := 255 - len(xb); extra > 0 {
-				body = append(body, r.Bytes(1+sizeIn(r, extra-1))...)
+				body = append(body, r.Bytes(1+c14SizeIn(r, extra-1))...)
 			}
 		case 3: // random bytes
-			body = r.Bytes(sizeIn(r, 255))
+			body = r.Bytes(c14SizeIn(r, 255))
 		case 4: // valid body, one byte changed
 			body = append([]byte{}, xb...)
 			if len(body) > 0 {
@@ -146,19 +147,19 @@ func (c14) Gen(r *Rng, tier string, emit func(string, Tok)) {
 		if len(body) > 255 {
 			body = body[:255]
 		}
-		la, _ := refLoop([]*astits.Descriptor{a}, false)
-		lb, _ := refLoop([]*astits.Descriptor{b}, false)
+		la, _ := c14RefLoop([]*astits.Descriptor{a}, false)
+		lb, _ := c14RefLoop([]*astits.Descriptor{b}, false)
 		mid := append([]byte{x.Tag, byte(len(body))}, body...)
 		all := append(append(append([]byte{}, la...), mid...), lb...)
 		if len(all) > 4095 {
 			continue
 		}
-		in, off := framed(r, withLen(all))
-		emit("sandwich:"+c14Name(x.Tag), parseCase(in, off, L(L(ToTok(*a)), L(), L(ToTok(*b))), false))
+		in, off := c14Framed(r, c14WithLen(all))
+		emit("sandwich:"+c14Name(x.Tag), c14ParseCase(in, off, L(L(ToTok(*a)), L(), L(ToTok(*b))), false))
 	}
 	// 4. every tag with every small declared length (and 255) over random bytes, followed by a sentinel
 	sentinel := &astits.Descriptor{Tag: 0x52, StreamIdentifier: &astits.DescriptorStreamIdentifier{ComponentTag: 0xa5}}
-	ls, _ := refLoop([]*astits.Descriptor{sentinel}, false)
+	ls, _ := c14RefLoop([]*astits.Descriptor{sentinel}, false)
 	tags := append([]uint8{0x00, 0x80, 0xfe, 0xff, 0x7e}, c14TypedTags...)
 	for _, tag := range tags {
 		for _, l := range []int{0, 1, 2, 3, 4, 5, 6, 7, 8, 9, 12, 13, 14, 16, 26, 255} {
@@ -168,16 +169,16 @@ func (c14) Gen(r *Rng, tier string, emit func(string, Tok)) {
 					body[0] = 0x06
 				}
 				all := append(append([]byte{tag, byte(l)}, body...), ls...)
-				in, off := framed(r, withLen(all))
-				emit("declared-length", parseCase(in, off, L(L(), L(ToTok(*sentinel))), false))
+				in, off := c14Framed(r, c14WithLen(all))
+				emit("declared-length", c14ParseCase(in, off, L(L(), L(ToTok(*sentinel))), false))
 			}
 		}
 	}
 	// 5. malformed streams: a length byte or the loop length changed without moving anything, truncation, random bytes,
 	//    offsets outside the buffer
 	for k := 0; k < 600*scale; k++ {
-		ds := genLoop(r, 6, 600)
-		loop, _ := refLoop(ds, true)
+		ds := c14GenLoop(r, 6, 600)
+		loop, _ := c14RefLoop(ds, true)
 		in := append([]byte{}, loop...)
 		off := 0
 		switch r.Intn(8) {
@@ -199,12 +200,12 @@ func (c14) Gen(r *Rng, tier string, emit func(string, Tok)) {
 				if r.Chance(1, 3) {
 					break
 				}
-				pos += 2 + len(refBody(d))
+				pos += 2 + len(c14RefBody(d))
 			}
 			if pos+1 < len(in) {
 				in[pos+1] = byte(int(in[pos+1]) + r.Range(-3, 3))
 				if r.Chance(1, 4) {
-					in[pos+1] = u8(r)
+					in[pos+1] = c14U8(r)
 				}
 			}
 			if r.Bool() {
@@ -233,14 +234,14 @@ func (c14) Gen(r *Rng, tier string, emit func(string, Tok)) {
 		default: // reserved bits of the loop length are ignored
 			in[0] = in[0]&0x0f | byte(r.Intn(16))<<4
 		}
-		emit("malformed", parseCase(in, off, L(), false))
+		emit("malformed", c14ParseCase(in, off, L(), false))
 	}
 	// 6. truncation at every offset of small loops
 	for k := 0; k < 8*scale; k++ {
-		ds := genLoop(r, 4, 48)
-		loop, _ := refLoop(ds, true)
+		ds := c14GenLoop(r, 4, 48)
+		loop, _ := c14RefLoop(ds, true)
 		for n := 0; n <= len(loop); n++ {
-			emit("truncated", parseCase(loop[:n], 0, L(), false))
+			emit("truncated", c14ParseCase(loop[:n], 0, L(), false))
 		}
 	}
 	// 7. writer outside the round-trip domain: uint8 wrap, nil behind a tag, foreign bodies, odd language codes
@@ -248,17 +249,17 @@ func (c14) Gen(r *Rng, tier string, emit func(string, Tok)) {
 		var ds []*astits.Descriptor
 		for j, n := 0, r.Range(1, 3); j < n; j++ {
 			if r.Chance(1, 4) {
-				ds = append(ds, genDesc(r, c14Selectors[r.Intn(len(c14Selectors))]))
+				ds = append(ds, c14GenDesc(r, c14Selectors[r.Intn(len(c14Selectors))]))
 			} else {
-				ds = append(ds, genOutOfDomain(r))
+				ds = append(ds, c14GenOutOfDomain(r))
 			}
 		}
-		emit("write-any", L(I(2), descsTok(ds)))
+		emit("write-any", L(I(2), c14DescsTok(ds)))
 		if k%2 == 0 {
-			emit("calc-any", L(I(3), descsTok(ds)))
+			emit("calc-any", L(I(3), c14DescsTok(ds)))
 		}
 		if k%5 == 0 {
-			emit("write-any-nolen", L(I(4), descsTok(ds)))
+			emit("write-any-nolen", L(I(4), c14DescsTok(ds)))
 		}
 	}
 	// 8. loops around and beyond the 12-bit limit
@@ -277,10 +278,10 @@ func (c14) Gen(r *Rng, tier string, emit func(string, Tok)) {
 			ds = append(ds, &astits.Descriptor{Tag: 0x90, UserDefined: r.Bytes(n)})
 			total += 2 + n
 		}
-		emit("loop-4095", L(I(2), descsTok(ds)))
-		emit("loop-4095", L(I(3), descsTok(ds)))
-		loop, _ := refLoop(ds, true)
-		emit("loop-4095", parseCase(loop, 0, L(), false))
+		emit("loop-4095", L(I(2), c14DescsTok(ds)))
+		emit("loop-4095", L(I(3), c14DescsTok(ds)))
+		loop, _ := c14RefLoop(ds, true)
+		emit("loop-4095", c14ParseCase(loop, 0, L(), false))
 	}
 	// 9. local time offset: the date/time words (the stub of Model/Dvb.v is exact rational arithmetic; the float
 	//    formula of dvb.go must agree with it on every MJD word) and every value of the BCD bytes
@@ -292,25 +293,25 @@ func (c14) Gen(r *Rng, tier string, emit func(string, Tok)) {
 		sweep("local time offset: all 256 values of every BCD byte")
 	}
 	lto := func(mjd int, v byte) []byte {
-		return withLen([]byte{0x58, 13, 'F', 'R', 'A', 0x03, v, v, byte(mjd >> 8), byte(mjd), v, v, v, v, v})
+		return c14WithLen([]byte{0x58, 13, 'F', 'R', 'A', 0x03, v, v, byte(mjd >> 8), byte(mjd), v, v, v, v, v})
 	}
 	for mjd := 0; mjd < 65536; mjd += step {
-		emit("lto-mjd", parseCase(lto(mjd, 0x12), 0, L(), false))
+		emit("lto-mjd", c14ParseCase(lto(mjd, 0x12), 0, L(), false))
 	}
 	for _, mjd := range []int{0, 1, 15078, 15079, 15080, 40587, 65535, 65534, 15079 + 59, 15079 + 60, 15079 + 366, 51544, 51603, 51604} {
-		emit("lto-mjd", parseCase(lto(mjd, 0x59), 0, L(), false))
+		emit("lto-mjd", c14ParseCase(lto(mjd, 0x59), 0, L(), false))
 	}
 	for v := 0; v < 256; v++ {
-		emit("lto-bcd", parseCase(lto(0xc079, byte(v)), 0, L(), false))
+		emit("lto-bcd", c14ParseCase(lto(0xc079, byte(v)), 0, L(), false))
 	}
 	// written dates: every day boundary kind
 	for k := 0; k < 150*scale; k++ {
-		d := genDesc(r, 0x58)
-		emit("lto-write", L(I(2), descsTok([]*astits.Descriptor{d})))
+		d := c14GenDesc(r, 0x58)
+		emit("lto-write", L(I(2), c14DescsTok([]*astits.Descriptor{d})))
 	}
 }
 
-func runWrite(f func(s *sinkWriter) (int, error)) Tok {
+func c14RunWrite(f func(s *sinkWriter) (int, error)) Tok {
 	return guard(func() Tok {
 		s := &sinkWriter{failAt: -1}
 		n, err := f(s)
@@ -318,7 +319,7 @@ func runWrite(f func(s *sinkWriter) (int, error)) Tok {
 	})
 }
 
-func descsFrom(t Tok) []*astits.Descriptor {
+func c14DescsFrom(t Tok) []*astits.Descriptor {
 	var ds []*astits.Descriptor
 	FromTok(t, &ds)
 	return ds
@@ -329,14 +330,14 @@ func (c14) Run(c Tok) Tok {
 	case 1:
 		return guard(func() Tok {
 			ds, off, err := astits.VerifParseDescriptorsAt(c.At(1).Bytes(), int(c.At(2).Int()))
-			return resOf(func() Tok { return L(descsTok(ds), I(int64(off))) }, err)
+			return resOf(func() Tok { return L(c14DescsTok(ds), I(int64(off))) }, err)
 		})
 	case 2:
-		ds := descsFrom(c.At(1))
-		return runWrite(func(s *sinkWriter) (int, error) { return astits.VerifWriteDescriptorsWithLength(s, ds) })
+		ds := c14DescsFrom(c.At(1))
+		return c14RunWrite(func(s *sinkWriter) (int, error) { return astits.VerifWriteDescriptorsWithLength(s, ds) })
 	case 3:
 		return guard(func() Tok {
-			ds := descsFrom(c.At(1))
+			ds := c14DescsFrom(c.At(1))
 			lens := make([]Tok, 0, len(ds))
 			for _, d := range ds {
 				lens = append(lens, I(int64(astits.VerifCalcDescriptorLength(d))))
@@ -344,25 +345,25 @@ func (c14) Run(c Tok) Tok {
 			return L(L(lens...), I(int64(astits.VerifCalcDescriptorsLength(ds))))
 		})
 	case 4:
-		ds := descsFrom(c.At(1))
-		return runWrite(func(s *sinkWriter) (int, error) { return astits.VerifWriteDescriptors(s, ds) })
+		ds := c14DescsFrom(c.At(1))
+		return c14RunWrite(func(s *sinkWriter) (int, error) { return astits.VerifWriteDescriptors(s, ds) })
 	case 5:
 		var d astits.Descriptor
 		FromTok(c.At(1), &d)
-		return runWrite(func(s *sinkWriter) (int, error) { return astits.VerifWriteDescriptor(s, &d) })
+		return c14RunWrite(func(s *sinkWriter) (int, error) { return astits.VerifWriteDescriptor(s, &d) })
 	}
 	return L()
 }
 
-// tlvWalk splits a loop independently of the library: the 12-bit length at off, then tag/length pairs; each entry
+// c14TlvWalk splits a loop independently of the library: the 12-bit length at off, then tag/length pairs; each entry
 // ends at its declared length whether or not the buffer holds that many bytes. ok is false when the loop length or
 // a tag/length pair does not lie inside the buffer.
-type tlv struct {
+type c14Tlv struct {
 	pos      int
 	tag, len uint8
 }
 
-func tlvWalk(in []byte, off int) (entries []tlv, end int, ok bool) {
+func c14TlvWalk(in []byte, off int) (entries []c14Tlv, end int, ok bool) {
 	if off < 0 || off+2 > len(in) {
 		return nil, 0, false
 	}
@@ -373,14 +374,14 @@ func tlvWalk(in []byte, off int) (entries []tlv, end int, ok bool) {
 		if pos+2 > len(in) {
 			return entries, pos, false
 		}
-		entries = append(entries, tlv{pos, in[pos], in[pos+1]})
+		entries = append(entries, c14Tlv{pos, in[pos], in[pos+1]})
 		pos += 2 + int(in[pos+1])
 	}
 	return entries, pos, true
 }
 
-// checkFraming: out must be tag/length/body entries, one per descriptor, that tile it exactly
-func checkFraming(out []byte, ds []*astits.Descriptor) string {
+// c14CheckFraming: out must be tag/length/body entries, one per descriptor, that tile it exactly
+func c14CheckFraming(out []byte, ds []*astits.Descriptor) string {
 	pos := 0
 	for k, d := range ds {
 		if pos+2 > len(out) {
@@ -389,7 +390,7 @@ func checkFraming(out []byte, ds []*astits.Descriptor) string {
 		if out[pos] != d.Tag {
 			return fmt.Sprintf("entry %d at byte %d carries tag %#x, descriptor has %#x: a length byte differs from the bytes emitted", k, pos, out[pos], d.Tag)
 		}
-		want := refBodyOrEmpty(d)
+		want := c14RefBodyOrEmpty(d)
 		if int(out[pos+1]) != len(want) {
 			return fmt.Sprintf("descriptor %d (tag %#x, struct Length %d): length byte %d, body is %d bytes", k, d.Tag, d.Length, out[pos+1], len(want))
 		}
@@ -406,7 +407,7 @@ func (c14) Oracle(c Tok, obs Tok) string {
 	case 1:
 		in, off := c.At(1).Bytes(), int(c.At(2).Int())
 		expect, mustOK := c.At(3), c.At(4).Int() == 1
-		entries, end, ok := tlvWalk(in, off)
+		entries, end, ok := c14TlvWalk(in, off)
 		if obs.At(0).Int() != 0 {
 			if mustOK {
 				return "parseDescriptors rejects the reference encoding of a well-formed loop: " + obs.String()
@@ -439,16 +440,16 @@ func (c14) Oracle(c Tok, obs Tok) string {
 			}
 			var d astits.Descriptor
 			FromTok(e.L[0], &d)
-			if !wfDesc(&d) || !onlyBody(&d) {
+			if !c14WfDesc(&d) || !c14OnlyBody(&d) {
 				return fmt.Sprintf("generator bug: expected descriptor %d is outside the domain", k)
 			}
 			// the bytes at this entry are the reference encoding of d
-			rb := refBody(&d)
+			rb := c14RefBody(&d)
 			p := entries[k].pos
 			if entries[k].tag != d.Tag || int(entries[k].len) != len(rb) || p+2+len(rb) > len(in) || !eqBytes(in[p+2:p+2+len(rb)], rb) {
 				return fmt.Sprintf("generator bug: entry %d is not the reference encoding of the expected value", k)
 			}
-			if g, w := got.L[k].String(), ToTok(*expectParsed(&d)).String(); g != w {
+			if g, w := got.L[k].String(), ToTok(*c14ExpectParsed(&d)).String(); g != w {
 				return fmt.Sprintf("descriptor %d (tag %#x): parse(reference encoding) = %s, value = %s", k, d.Tag, g, w)
 			}
 		}
@@ -459,17 +460,17 @@ func (c14) Oracle(c Tok, obs Tok) string {
 			FromTok(c.At(1), &d)
 			ds = []*astits.Descriptor{&d}
 		} else {
-			ds = descsFrom(c.At(1))
+			ds = c14DescsFrom(c.At(1))
 		}
 		withLength := c.At(0).Int() == 2
-		ref, fits := refLoop(ds, withLength)
+		ref, fits := c14RefLoop(ds, withLength)
 		allWf := true
 		for _, d := range ds {
-			if nilSupplementaryAudio(d) {
+			if c14NilSupplementaryAudio(d) {
 				return "" // the one nil dereference of the writers: outside the domain
 			}
 			// a descriptor without the body of its tag is an empty descriptor; anything else must be encodable
-			if refBodyPresent(d) && !wfDesc(d) {
+			if c14RefBodyPresent(d) && !c14WfDesc(d) {
 				allWf = false
 			}
 		}
@@ -496,26 +497,26 @@ func (c14) Oracle(c Tok, obs Tok) string {
 			}
 			body = out[2:]
 		}
-		if w := checkFraming(body, ds); w != "" {
+		if w := c14CheckFraming(body, ds); w != "" {
 			return w
 		}
 		if allWf && !eqBytes(out, ref) {
 			return fmt.Sprintf("output differs from the reference encoding: got %x want %x", out, ref)
 		}
 	case 3:
-		ds := descsFrom(c.At(1))
-		_, fits := refLoop(ds, false)
+		ds := c14DescsFrom(c.At(1))
+		_, fits := c14RefLoop(ds, false)
 		if !fits {
 			return ""
 		}
 		for _, d := range ds {
-			if nilSupplementaryAudio(d) {
+			if c14NilSupplementaryAudio(d) {
 				return ""
 			}
 		}
 		total := 0
 		for k, d := range ds {
-			want := len(refBodyOrEmpty(d))
+			want := len(c14RefBodyOrEmpty(d))
 			total += 2 + want
 			if got := int(obs.At(0).At(k).Int()); got != want {
 				return fmt.Sprintf("calcDescriptorLength of descriptor %d (tag %#x) = %d, its body is %d bytes", k, d.Tag, got, want)
@@ -528,8 +529,8 @@ func (c14) Oracle(c Tok, obs Tok) string {
 	return ""
 }
 
-// nilSupplementaryAudio: an extension descriptor that announces supplementary audio and carries none
-func nilSupplementaryAudio(d *astits.Descriptor) bool {
+// c14NilSupplementaryAudio: an extension descriptor that announces supplementary audio and carries none
+func c14NilSupplementaryAudio(d *astits.Descriptor) bool {
 	return d.Tag == 0x7f && d.Extension != nil && d.Extension.Tag == 0x06 && d.Extension.SupplementaryAudio == nil
 }
 
